@@ -119,6 +119,19 @@ Theorem C14_slot_reuse_step : forall t o t' out k, step t o = Ok (t', out) -> no
   spent (t_nodes t') k /\ (is_creation o = true -> out <> RKey k).
 Proof. exact spent_step. Qed.
 
+(* ---- node contexts: remove / clear do not touch node_context_data, so contexts of removed nodes stay behind in the
+   secondary map (get_node_context of the *stale* key still returns them).  They are never attributed to a new node:
+   `ctx_inv` (every stored context sits at or below the current version of its slot) holds initially, is preserved by
+   every operation (no version wrap), and implies that a node created without context in a reused slot has none. *)
+Theorem C14_ctx_inv_preserved :
+  ctx_inv tree_new /  forall t o t' out, WF t -> no_wrap (t_nodes t) -> ctx_inv t -> step t o = Ok (t', out) -> ctx_inv t'.
+Proof. split; [exact ctx_inv_new | exact ctx_inv_step]. Qed.
+
+Theorem C14_fresh_context_none : forall t o t' k, WF t -> ctx_inv t ->
+  (o = ONewLeaf \/ exists cs, o = ONewWithChildren cs) ->
+  step t o = Ok (t', RKey k) -> get_node_context t' k = None.
+Proof. exact fresh_ctx_none. Qed.
+
 (* ---- non-vacuity: a reachable, non-trivial state (attach, insert in front, remove, slot reuse, set_children) satisfies
    pre at every step, hence WF; and the precondition is needed: add_child of an attached node breaks WF *)
 Example C14_example_reachable :
@@ -146,5 +159,7 @@ Print Assumptions C14_index_errors.
 Print Assumptions C14_remove.
 Print Assumptions C14_slot_reuse.
 Print Assumptions C14_slot_reuse_step.
+Print Assumptions C14_ctx_inv_preserved.
+Print Assumptions C14_fresh_context_none.
 Print Assumptions C14_example_reachable.
 Print Assumptions C14_pre_needed_example.
